@@ -5,6 +5,9 @@ ENGINES = [
      "kind_free_text": "controlled cooperative scheduler + AST instrumenter for lib/go; stateless DFS over choice sequences with deviation bounding and happens-before state-key pruning; explores the real code, no model"},
 ]
 
+ENGINES.append({"name": "e3-bytex", "path": "/verif/harness/e1/vb_bytex.go", "serves_properties": ["C05"],
+     "kind_free_text": "bounded-exhaustive byte strings, template-field substitutions and truncations at every synchronous receiving entry point; each input runs inside its own vsched execution so blocking forever is a detected end state"})
+
 NOTES = ("Every check rebuilds from /repo's working tree (override: VERIF_REPO) into a mktemp scratch dir that is removed on exit. "
          "KNOWN_FINDINGS.txt lists fixed and open findings; only `finding:` lines suppress a violation.")
 
@@ -38,5 +41,9 @@ CHECKS["C20"] = dict(engine="e1-vsched", design_ref="DESIGN.md §4 C20", techniq
 CHECKS["C07"] = dict(engine="e1-vsched", design_ref="DESIGN.md §4 C07", technique="stateless model checking of the implementation over broker models (all message sequences x unsubscribe positions x schedules)",
     text="The real NATS and STOMP subscriber and publisher transports over fakenats / fakestomp: every length-3 message sequence over {valid, foreign topic, 0-byte, 3-byte, bad header block, bad version}, Unsubscribe at every position and racing in its own thread, worker counts 1-2; all schedules of publisher, broker dispatcher, workers / processMessages, ack goroutines and unsubscriber to the bound. Reference model = list: only valid messages of the subscribed topic are delivered, at most once, in publish order for one worker, with unchanged payload and headers; all of them when nobody unsubscribes (so a bad message cannot kill the subscriber); none published after Unsubscribe returned; no panic.",
     note=E1_NOTE + " The generated recv<Op> layer (op-name check, payload decoding) is not part of this harness; a hand-written callback that parses the frame with the reference parser stands in for it.")
+
+CHECKS["C05"] = dict(engine="e3-bytex", design_ref="DESIGN.md §3, §4 C05", technique="bounded-exhaustive input enumeration (all byte strings up to L over a boundary alphabet, all single field substitutions and truncations of template frames) at every receiving entry point, each inside a controlled-scheduler execution",
+    text="All byte strings up to length 5 (7 thorough) over {00,01,04,05,7f,80,fe,ff}, raw / framed / behind a matching header size, JSON-alphabet strings behind valid headers, and for 15 well-formed template frames (request, reply, exception, unknown method, oneway x binary/compact/JSON) every truncation, every 4-byte field position x boundary value (pairs in thorough) and boundary byte flips; each fed to 22 entry points (registry.Execute, ExecuteFrame, NATS transport handler incl. status messages, getHeadersFromFrame, FProtocol header readers, FBaseProcessor.Process, fNatsServer.processFrame, HTTP handler func, HTTP client response path, processReply, FSimpleServer.accept, TFramedTransport.Read) under recover and inside a vsched execution; then a well-formed message must still be handled by the same receiver.",
+    note="Trusted base: harness entry-point drivers, vsched, Apache Thrift as linked. Asynchronous loops (adapter read loop, subscriber loops) are driven by the C15/C07 harnesses; generated recv callbacks by the E2 checks. Declared header sizes of 1 MiB..2 GiB are skipped per entry point (counted) and represented by probes.")
 
 NOT_APPLICABLE = {}
